@@ -1,8 +1,8 @@
 (* Pinned statements of the C04 theorems (generated once by bin/genpins, then committed):
    fails to compile if Props/C04.v is weakened, renamed or given other hypotheses. *)
-From Coq Require Import SpecFloat.
+From Coq Require Import SpecFloat Lia ZifyNat ZifyN.
 Require Import Base Value Float NumberOps ListOps SerdeModel SerdeProofs.
-Require Import PrintOptions Printer ParseOptions Reader Parser TextProofs RoundtripProofs.
+Require Import PrintOptions Printer ParseOptions Reader Parser TextProofs RoundtripProofs SerdeTextProofs.
 Require Import Lexpr.Props.C04.
 
 Check (C04_value_roundtrip :
@@ -25,6 +25,26 @@ Check (C04_text_roundtrip_partial :
   | PErr _ => False
   end).
 
+Check (C04_serialized_in_class :
+  forall alpha is_f32 t d v,
+  text_ty alpha t -> text_data d -> ser is_f32 t d = Some v -> rt_ok alpha v).
+
+Check (C04_serialized_depth :
+  forall is_f32 t d v, ser is_f32 t d = Some v -> (rdepth v <= tdepth t)%nat).
+
+Check (C04_identifier_names :
+  forall alpha s, ident_b s = true -> plain_symbol alpha s).
+
+Check (C04_text_roundtrip_float_free_partial :
+  forall (cast_f32 : f64 -> f64) (is_f32 : f64 -> bool),
+  (forall f, is_f32 f = true -> cast_f32 f = f) ->
+  forall ryu alpha fast std_parse k t, wf_ty t -> text_ty alpha t -> (tdepth t <= 127)%nat ->
+  forall d v, text_data d -> ser is_f32 t d = Some v ->
+  match from_trait default_ro alpha fast std_parse k (bytes_events (print0 ryu v)) with
+  | POk v' => de cast_f32 t v' = SOk d
+  | PErr _ => False
+  end).
+
 Check (C04_nonvacuous :
   let t := TyStruct [([110], TyString); ([97], TyOption (TyInt false 8));
                      ([115], TyEnum [([68], VUnit); ([82], VTuple [TyInt true 32; TyInt true 32])]);
@@ -32,3 +52,11 @@ Check (C04_nonvacuous :
   let d := DStruct [DString [120]; DNone; DEnum [82] (PTuple [DInt (-3); DInt 4]);
                     DMap [(DChar 97, DSeq [DBool true; DBool false])]] in
   wf_ty t /\ match ser (fun _ => true) t d with Some v => de (fun f => f) t v = SOk d | None => False end).
+
+Check (C04_text_nonvacuous :
+  let t := TyStruct [([110], TyString); ([97], TyOption (TyInt false 8));
+                     ([115], TyEnum [([68], VUnit); ([82], VTuple [TyInt true 32; TyInt true 32])]);
+                     ([109], TyMap TyChar (TySeq TyBool))] in
+  let d := DStruct [DString [120]; DNone; DEnum [82] (PTuple [DInt (-3); DInt 4]);
+                    DMap [(DChar 97, DSeq [DBool true; DBool false])]] in
+  text_ty (fun _ => false) t /\ text_data d /\ (tdepth t <= 127)%nat).
